@@ -19,11 +19,80 @@ import numpy as np
 from . import common
 
 PROP = "C05"
-LEAN_MODULES = ["MiciVerif.Props.C05"]
+LEAN_MODULES = ["MiciVerif.Props.C05", "MiciVerif.Props.C05S"]
+GENERATED = ["system_methods"]
 LEAN_EXTRA = ["MiciVerif.Model.Systems", "MiciVerif.Model.Constrained", "MiciVerif.Lemmas.SystemsDual", "MiciVerif.Proto"]
 
 EUCLID_METRICS = ["identity", "diag", "dense", "scaled", "trifac", "eig", "block", "lowrank+", "lowrank-", "inv-diag", "inv-dense"]
 FAMILIES = ["euclid", "gauss", "constr-haus", "constr-gram", "gconstr", "riem-scalar", "riem-diag", "riem-chol", "riem-dense", "riem-softabs"]
+
+
+# ---------------------------------------------------------------------------------------
+# source-level obligations (Props/C05S, C07S, C08S over Generated/SystemMethods.lean): when one
+# of them is broken, find which translated method bodies changed and escalate the search there
+
+FAMILY_CLASS = {
+    "euclid": "EuclideanMetricSystem", "gauss": "GaussianEuclideanMetricSystem",
+    "constr-haus": "DenseConstrainedEuclideanMetricSystem", "constr-gram": "DenseConstrainedEuclideanMetricSystem",
+    "gconstr": "GaussianDenseConstrainedEuclideanMetricSystem", "riem-scalar": "ScalarRiemannianMetricSystem",
+    "riem-diag": "DiagonalRiemannianMetricSystem", "riem-chol": "CholeskyFactoredRiemannianMetricSystem",
+    "riem-dense": "DenseRiemannianMetricSystem", "riem-softabs": "SoftAbsRiemannianMetricSystem",
+}
+
+
+def _parse_method_table(text):
+    """{(class, method): translated term} of a Generated/SystemMethods.lean text (+ mro / constants rows)."""
+    import re
+
+    out = {}
+    for blk in re.split(r"@\[simp\] def body_", text)[1:]:
+        cls = re.match(r"(\w+)", blk).group(1)
+        for m in re.finditer(r"\| \.(\w+) => some ⟨(\d+), \[\n(.*?)\n    \]⟩", blk, re.S):
+            out[(cls, m.group(1))] = m.group(2) + "|" + m.group(3)
+    for m in re.finditer(r"^  \| \.(\w+) => (\[.*\]|some .*)$", text, re.M):
+        out[(m.group(1), "<mro/init-constant> " + m.group(2)[:12])] = m.group(2)
+    return out
+
+
+def src_changed_methods():
+    """(class, method) pairs whose translated body in the table generated from the tree under test differs
+    from the committed clean-tree table Generated.expected/SystemMethods.lean."""
+    gen = common.LEAN / "MiciVerif" / "Generated" / "SystemMethods.lean"
+    exp = common.LEAN / "MiciVerif" / "Generated.expected" / "SystemMethods.lean"
+    try:
+        a, b = _parse_method_table(gen.read_text()), _parse_method_table(exp.read_text())
+    except OSError:
+        return []
+    return sorted(k for k in set(a) | set(b) if a.get(k) != b.get(k))
+
+
+def src_escalation(ctx):
+    """-> (broken, changed, families): a source-level obligation (theorem `src_*`) no longer checks; the changed
+    (class, method) bodies; the zoo families whose class has a changed class in its MRO."""
+    broken = [o["theorem"] for o in ctx.obligations if not o["ok"] and ".src_" in "." + o["theorem"].replace("MiciVerif.", "")]
+    broken = broken or [o["theorem"] for o in ctx.obligations if not o["ok"] and "src_" in o["theorem"]]
+    if not broken:
+        return False, [], set()
+    changed = src_changed_methods()
+    fams = set()
+    try:
+        import sys
+
+        sys.path.insert(0, str(common.VERIF / "tools"))
+        from extractors import system_methods
+
+        mro = system_methods.analyse(common.REPO)["mro"]
+    except Exception:  # noqa: BLE001
+        mro = {}
+    for fam, cls in FAMILY_CLASS.items():
+        line = mro.get(cls) or [cls]
+        if not changed or any(c in line for c, _ in changed):
+            fams.add(fam)
+    ctx.extra["src_obligations_broken"] = broken[:20]
+    ctx.extra["src_changed_methods"] = [f"{c}.{m}" for c, m in changed]
+    for fam in sorted(fams):
+        ctx.count("search_escalated:" + fam)
+    return True, changed, fams
 
 
 def dy(rng, lo, hi, den=8):
@@ -417,7 +486,21 @@ def oracle_system(sp, q, p):
     """Property statement on the real system at (q, p). Returns list of (signature, text)."""
     from mici.states import ChainState
 
-    system, r = build_system(sp)
+    if "metric_first" in sp:
+        # scenario "metric replaced after first use" (what the metric adapters do): build with another metric, use
+        # every method once, then assign the metric of the spec; everything below refers to the CURRENT metric
+        system, _ = build_system(dict(sp, metric=sp["metric_first"]))
+        eval_methods(system, q, np.array(p, dtype=float) * 0.5 - 0.25)
+        eval_methods(system, q, p)
+        new = metric_object(sp["metric"], sp["n"])
+        if isinstance(new, np.ndarray):  # what the constructor does with array arguments
+            from mici import matrices as mm
+
+            new = mm.PositiveDiagonalMatrix(new) if new.ndim == 1 else mm.DensePositiveDefiniteMatrix(new)
+        system.metric = new
+        r = Ref(sp)
+    else:
+        system, r = build_system(sp)
     q, p = np.array(q, dtype=float), np.array(p, dtype=float)
     cls = type(system).__name__
     bad = []
@@ -557,13 +640,31 @@ def run(ctx: common.Ctx):
     ]
     cases = []
     per = ctx.n(40, 1200)
+    # a broken source-level obligation (src_*_eq_model over the regenerated method table) escalates the
+    # failing-input search for the families that inherit a changed method body
+    _, _, esc_fams = src_escalation(ctx)
     for fam in FAMILIES:
-        for k in range(per):
+        for k in range(per * (6 if fam in esc_fams and ctx.quick else 1)):
             mk = None
             if fam in ("euclid", "gauss") and k < len(EUCLID_METRICS):
                 mk = EUCLID_METRICS[k]
             sp = gen_spec(rng, fam, mk)
             q, p = gen_state(rng, sp)
+            cases.append((sp, q, p))
+    # metric replaced after first use (constant-metric families)
+    rng2 = common.rng_for(ctx, 11)
+    for fam in ("euclid", "gauss", "constr-haus", "constr-gram", "gconstr"):
+        for k in range(ctx.n(8, 120)):
+            sp = gen_spec(rng2, fam, EUCLID_METRICS[(k + 1) % len(EUCLID_METRICS)])
+            for _ in range(50):
+                ms = gen_metric(rng2, sp["n"], EUCLID_METRICS[int(rng2.integers(len(EUCLID_METRICS)))])
+                ev = np.linalg.eigvalsh(metric_array(ms, sp["n"]))
+                if ev[0] > 0.1 and ev[-1] / ev[0] < 200:
+                    break
+            else:
+                raise common.MachineryError("no well conditioned metric")
+            sp["metric_first"] = ms
+            q, p = gen_state(rng2, sp)
             cases.append((sp, q, p))
     reqs, keep = [], []
     for sp, q, p in cases:
@@ -575,6 +676,8 @@ def run(ctx: common.Ctx):
             continue
         ctx.case({"family": sp["family"], "metric": sp.get("metric", {}).get("kind"), "conv": sp["conv"], "n": sp["n"], "q": q, "p": p}, nontrivial=True)
         ctx.count(f"{sp['family']}" + (f":{sp['metric']['kind']}" if "metric" in sp else ""))
+        if "metric_first" in sp:
+            ctx.count("metric_replaced_after_first_use:" + sp["family"])
         ctx.count("conv:" + "".join(map(str, sp["conv"])))
         for sig, text in bad:
             ctx.violation(sig, f"{text}; family={sp['family']} metric={sp.get('metric', {}).get('kind')} conv={sp['conv']}", case)
@@ -627,7 +730,15 @@ LEVEL_TEXT = (
     "dh2_dmom = M⁻¹p) given the per-class differential facts, which are proved for the dense, diagonal, scaled-identity "
     "and (lower-triangular) Cholesky-factored metric classes (denseClass_/diagClass_/scalarClass_/cholClass_differential). "
     "Tied to the code by exact comparison of all eight "
-    "methods of real systems of every class with the model over Q and by finite-difference oracles on the real code."
+    "methods of real systems of every class with the model over Q and by finite-difference oracles on the real code. "
+    "Source level (Props/C05S): tools/extractors/system_methods.py re-translates the BODY of every method of every class of "
+    "systems.py (pure ast) into a deep-embedded statement/expression language on every run (Generated/SystemMethods.lean, "
+    "with the C3 MRO); src_<Class>_<method>_eq_model (8 methods x 10 classes) prove that evaluating the generated body - "
+    "self.m(state) calls resolved through the generated MRO, helper methods gram / inv_gram / log_det_sqrt_gram / "
+    "grad_log_det_sqrt_gram / jacob_constr_inner_product / metric / metric_func included - equals the hand model for every "
+    "environment, state and commutative ring; src_<Class>_consistent and src_<Class>_derivative restate the sum relations "
+    "and the dual-number derivative theorems for the values the source text computes; src_init_constants ties "
+    "dens_wrt_hausdorff=False and the metric matrix classes passed by the subclasses' __init__."
 )
 LEVEL_NOTE = (
     "Trusted: Lean kernel, axioms {propext, Classical.choice, Quot.sound}; the harness. log|det| is an uninterpreted "
@@ -637,9 +748,13 @@ LEVEL_NOTE = (
     "supplied functions, the metric is symmetric. Not proved in Lean (covered by exact correspondence and the "
     "finite-difference oracle only): the per-class differential facts of the SoftAbs class (eigendecomposition, coth; its "
     "Hessians are generated with eigenvalues away from 0 because softabs(0) evaluates 0/tanh(0) = NaN). The return-convention handling (tuple with auxiliary values) is exercised by the "
-    "harness in all 16 combinations; its caching semantics belongs to C09."
+    "harness in all 16 combinations; its caching semantics belongs to C09. Source level: the translator (ast shapes -> terms) "
+    "and the evaluator's reading of NumPy operators (shape-directed +,-,*,/,@, ** 0.5) are trusted; cache decorators are "
+    "ignored there (C09); mici.matrices objects enter as records of the attributes the system code reads; an "
+    "untranslatable shape evaluates to err and breaks the eq_model theorems of the methods containing or calling it."
 )
 TECHNIQUE = (
     "Lean 4 theorems in dual numbers (Mathlib.Algebra.DualNumber) + exact-rational model/implementation comparison of the "
-    "eight system methods + Richardson finite-difference oracle on the real code"
+    "eight system methods + Richardson finite-difference oracle on the real code + source-to-term translation of the "
+    "method bodies of systems.py with machine-checked equality of their evaluation and the model (src_*_eq_model)"
 )
